@@ -10,7 +10,8 @@ Driver for C11.
              exact carrier for the calculator's fields and the known-finding classifiers.
 
 Ops: `clock <ms>` · `load wu <f:T> <periodSec> <coldFactor> <statIntervalMs>` ·
-`load ma <lowThr> <highThr> <lowMark> <highMark> <statIntervalMs>` · `mem <bytes|-1>` ·
+`load ma <lowThr> <highThr> <lowMark> <highMark> <statIntervalMs>` (a later `load` in the same case *re*loads the
+resource's rule) · `mem <bytes|-1>` ·
 `req <n> <batch>` (n sequential `Entry`+`Exit` at this instant ⇒ number admitted) · `sum` (pass sum of the
 resource's default 1 s view).
 -/
@@ -58,23 +59,21 @@ def step {α} [Carrier α] (parseT : String → Option α) (neg : α → Bool)
       | none => (s, some "bad-op")
   | ["load", "wu", T, p, cf, iv] => match parseT T, p.toNat?, cf.toNat?, iv.toNat? with
       | some T, some p, some cf, some iv =>
-        if s.loaded then (s, some "bad-op") else
         match viewOf iv with
         | none => (s, some "bad-op")
         | some (sc, Iv) =>
           -- `IsValidRule`: negative threshold, zero period, cold factor 1 are rejected (the rule is dropped)
-          if neg T || p = 0 || cf = 1 then ({ s with loaded := true }, some "ok 0")
-          else ({ s with sys := loadWarmUp s.sys s.now T p cf sc Iv, loaded := true }, some "ok 1")
+          let valid := !(neg T || p = 0 || cf = 1)
+          ({ s with sys := loadRule s.sys s.now (.wu T p cf iv) valid sc Iv, loaded := true }, some (if valid then "ok 1" else "ok 0"))
       | _, _, _, _ => (s, some "bad-op")
   | ["load", "ma", lt, ht, lm, hm, iv] => match lt.toInt?, ht.toInt?, lm.toInt?, hm.toInt?, iv.toNat? with
       | some lt, some ht, some lm, some hm, some iv =>
-        if s.loaded then (s, some "bad-op") else
         match viewOf iv with
         | none => (s, some "bad-op")
         | some (sc, Iv) =>
           let m : MemCfg := { lowT := lt, highT := ht, lowM := lm, highM := hm }
-          if !m.valid totalMem then ({ s with loaded := true }, some "ok 0")
-          else ({ s with sys := loadAdaptive s.sys s.now m sc Iv, loaded := true }, some "ok 1")
+          let valid := m.valid totalMem
+          ({ s with sys := loadRule s.sys s.now (.ma m iv) valid sc Iv, loaded := true }, some (if valid then "ok 1" else "ok 0"))
       | _, _, _, _, _ => (s, some "bad-op")
   | ["mem", x] => match x.toInt? with
       | some x => ({ s with sys := { s.sys with mem := x } }, none)
@@ -183,25 +182,22 @@ def ostep (s : OSt) (ts : List String) (line : String) : OSt × Option String :=
       | none => (s, some "bad-op")
   | ["load", "wu", T, p, cf, iv] => match parseRat? T, p.toNat?, cf.toNat?, iv.toNat? with
       | some T, some p, some cf, some iv =>
-        if s.loaded then (s, some "bad-op") else
         match viewOf iv with
         | none => (s, some "bad-op")
         | some (sc, Iv) =>
           let valid := !(decide (T < 0) || p = 0 || cf = 1)
-          let s' := if valid then { s with sys := loadWarmUp s.sys s.now T p cf sc Iv, loaded := true, period := p }
-                    else { s with loaded := true }
+          -- the claims are judged against the latest loaded rule
+          let s' := { s with sys := loadRule s.sys s.now (.wu T p cf iv) valid sc Iv, loaded := true, period := p, sat := none }
           (s', some (if res = (if valid then "ok 1" else "ok 0") then "ok" else "bad rule-validity"))
       | _, _, _, _ => (s, some "bad-op")
   | ["load", "ma", lt, ht, lm, hm, iv] => match lt.toInt?, ht.toInt?, lm.toInt?, hm.toInt?, iv.toNat? with
       | some lt, some ht, some lm, some hm, some iv =>
-        if s.loaded then (s, some "bad-op") else
         match viewOf iv with
         | none => (s, some "bad-op")
         | some (sc, Iv) =>
           let m : MemCfg := { lowT := lt, highT := ht, lowM := lm, highM := hm }
           let valid := m.valid totalMem
-          let s' := if valid then { s with sys := loadAdaptive s.sys s.now m sc Iv, loaded := true }
-                    else { s with loaded := true }
+          let s' := { s with sys := loadRule s.sys s.now (.ma m iv) valid sc Iv, loaded := true, sat := none }
           (s', some (if res = (if valid then "ok 1" else "ok 0") then "ok" else "bad rule-validity"))
       | _, _, _, _, _ => (s, some "bad-op")
   | ["mem", x] => match x.toInt? with
